@@ -2,7 +2,8 @@
 # whole-file owner (see the end of this file: jobs are only ADDED to PROPS["C07"]).
 _IO_DEC = ["IO/detail/Decoder.cc", "IO/detail/ovmb_codec.cc", "IO/detail/ovmb_format.cc", "IO/detail/Encoder.cc", "IO/detail/WriteBuffer.cc"]
 _IO_PC = ["IO/PropertyCodecs.cc", "IO/detail/Decoder.cc", "IO/detail/Encoder.cc", "IO/detail/WriteBuffer.cc", "Core/ResourceManager.cc",
-          "Core/Properties/PropertyStorageBase.cc", "Core/detail/internal_type_name.cc", "Core/Handles.cc", "Core/BaseEntities.cc"]
+          "Core/Properties/PropertyStorageBase.cc", "Core/detail/internal_type_name.cc", "Core/Handles.cc", "Core/BaseEntities.cc",
+          "FileManager/TypeNames.cc", "FileManager/Serializers.cc"]   # the last two only satisfy the native (replay) link of PropertyStorageT<T>'s ASCII virtuals
 # id, ovmb name, bytes per element (0 = variable) -- must match CODEC_TABLE in harness/C07_propcodecs.cpp
 _CODECS = [(0, "b", 0), (1, "u8", 1), (2, "u16", 2), (3, "u32", 4), (4, "u64", 8), (5, "i8", 1), (6, "i16", 2), (7, "i32", 4), (8, "i64", 8),
            (9, "f", 4), (10, "d", 8), (11, "s32", 0), (12, "vh", 4), (13, "eh", 4), (14, "heh", 4), (15, "fh", 4), (16, "hfh", 4), (17, "ch", 4),
@@ -35,34 +36,34 @@ def _c07_jobs():
                   bounds="Decoder::read(std::string&) on a Decoder with 0 / 1..3 remaining bytes (all byte values symbolic), called without a preceding need() as "
                          "Primitive<std::string>::decode does; EXPECTED TO FAIL: out-of-bounds read of the length word (finding F1)"))
     # --- registered property codecs through PropertyCodecs::register_codec / get_decoder / PropertyDecoderT
+    common = dict(units=_IO_PC, eh=True, checks="mem", ll2c_flags=["--drop-ctor=PropertyCodecs.cc"], mem_gb=4, timeout=300)
     for (cid, name, esz) in _CODECS:
-        common = dict(harness="C07_propcodecs.cpp", units=_IO_PC, unwind=64, eh=True, checks="mem", ll2c_flags=["--drop-ctor=PropertyCodecs.cc"], mem_gb=4, timeout=300)
         if cid == 0:
             spans_q = [(c, f) for c in (1, 7, 8, 9, 15, 16, 17) for f in sorted(set([0, min(1, 17 - c), 17 - c]))]
             spans_t = [(c, f) for c in range(1, 18) for f in range(0, 18 - c)]
-            J.append(dict(name="codec-b-deserialize", entries=["harness_deser_bool"], defines=["CODEC=0"],
+            J.append(dict(name="codec-b-deserialize", harness="C07_propcodecs.cpp", entries=["harness_deser_bool"], defines=["CODEC=0"], unwind=64,
                           shards={"quick": [{1: c, 2: f} for (c, f) in spans_q], "thorough": [{1: c, 2: f} for (c, f) in spans_t]},
                           bounds="PropertyDecoderT<bool,BoolPropCodec>::deserialize on a 17-element property, span {first,count} one query each "
                                  "(quick: count in {1,7,8,9,15,16,17} x first in {0,1,17-count}; thorough: all 153 spans), payload = 0..3 symbolic bytes (exact allocation): "
                                  "parse_error iff fewer than ceil(count/8) bytes, else bits unpacked LSB-first into exactly [first,first+count)", **common))
             continue
-        nel = 2
-        J.append(dict(name="codec-%s" % name, entries=["harness_deser_sufficient", "harness_request_sufficient"], defines=["CODEC=%d" % cid, "NELEM=%d" % nel],
-                      tiers=["quick"],
-                      bounds=("codec '%s': deserialize(storage of %d elements, symbolic span {first,count} within read_prop_chunk's checks) on a symbolic payload of " % (name, nel)) +
-                             ("4..12 bytes, one element (length word symbolic)" if esz == 0 else "count*%d .. %d bytes (exact allocation)" % (esz, nel * esz + 1)) +
-                             "; request_property with a symbolic serialized_default of %s bytes: memory-safe, success (string: or parse_error when the declared length exceeds the buffer)" %
-                             ("4..8" if esz == 0 else "%d..%d" % (esz, max(esz + 2, 8))), **common))
-        J.append(dict(name="codec-%s-n3" % name, entries=["harness_deser_sufficient", "harness_request_sufficient"], defines=["CODEC=%d" % cid, "NELEM=3", "DEF_MAX=%d" % (max(esz, 4) + 8)],
-                      tiers=["thorough"],
-                      bounds="as codec-%s with 3 elements and serialized_default up to %d bytes" % (name, max(esz, 4) + 8), **dict(common, timeout=1500)))
-        # payload / default too short for ONE element: GENUINE FINDINGS (notes/C07-findings.md F2, F3); quick tier keeps a representative subset
-        finding_tiers = ["quick", "thorough"] if name in ("u8", "u32", "s32", "3f") else ["thorough"]
-        ents = ["harness_deser_as_called", "harness_request_as_called"] + (["harness_request_empty_default"] if name in ("u32",) else [])
-        J.append(dict(name="codec-%s-short-input" % name, entries=ents, defines=["CODEC=%d" % cid, "NELEM=2"], tiers=finding_tiers,
-                      bounds="codec '%s' reached as the reader reaches it with an input too short for one element: PROP chunk payload of %s bytes with span {0,1}; "
-                             "DIRP serialized_default of %s bytes; EXPECTED TO FAIL: out-of-bounds read in Decoder (findings F2/F3)" %
-                             (name, "0" if esz == 1 else "1..%d" % ((esz or 4) - 1), "0" if esz == 1 else "1..%d (and 0)" % ((esz or 4) - 1)), **common))
+        for tier, nel in (("quick", 2), ("thorough", 3)):
+            J.append(dict(name="codec-%s%s" % (name, "" if tier == "quick" else "-n3"), harness="C07_propcodecs.cpp",
+                          entries=["harness_deser_sufficient", "harness_request_sufficient"], defines=["CODEC=%d" % cid, "NELEM=%d" % nel],
+                          unwind=max(64, nel * esz + 6), tiers=[tier],
+                          bounds=("codec '%s': deserialize(storage of %d elements, symbolic span {first,count} within read_prop_chunk's checks) on a symbolic payload of " % (name, nel)) +
+                                 ("4..7 bytes, one element (length word symbolic)" if esz == 0 else "k*%d or k*%d+1 bytes, k = 1..%d, at least count*%d (exact allocation)" % (esz, esz, nel, esz)) +
+                                 "; request_property with a symbolic serialized_default of %d..%d bytes: memory-safe, success (string: or parse_error when the declared length exceeds the buffer)" %
+                                 (esz or 4, (esz or 4) + 2), **common))
+    # inputs too short for ONE element, as the reader hands them over: GENUINE FINDINGS (notes/C07-findings.md F2, F3); one failing CBMC property per entry
+    names = [n for (_, n, _) in _CODECS if n != "b"]
+    quick_short = ["harness_deser_short_u32", "harness_request_short_u32", "harness_deser_short_3f", "harness_request_short_d", "harness_deser_short_u8", "harness_request_empty_u32"]
+    all_short = ["harness_%s_short_%s" % (k, n) for n in names for k in ("deser", "request")] + ["harness_deser_empty_u32", "harness_request_empty_u32"]
+    for tier, ents in (("quick", quick_short), ("thorough", [e for e in all_short if e not in quick_short])):
+        J.append(dict(name="codec-short-input" + ("" if tier == "quick" else "-all"), harness="C07_codec_short.cpp", entries=ents, unwind=64, tiers=[tier],
+                      bounds="codecs reached as the reader reaches them (deserialize with span {0,1}; request_property) with an input ONE BYTE SHORTER than one element needs "
+                             "(1-byte codecs and the *_empty_* entries: the empty input), every byte symbolic, exact heap allocation; "
+                             "EXPECTED TO FAIL: out-of-bounds / null read in Decoder::u8/u16/u32/u64 (findings F2/F3)", **common))
     return J
 
 if "C07" not in PROPS:
